@@ -21,6 +21,7 @@ sys.path.insert(0, os.path.join(HERE, "tools"))
 import extract      # noqa: E402
 import verus_run    # noqa: E402
 import kani_run     # noqa: E402
+import teeth        # noqa: E402
 
 REPO = os.environ.get("VERIF_REPO", "/repo")
 BUILD = os.path.join(HERE, "build")
@@ -259,6 +260,7 @@ def check_property(prop, tier, seed):
     canary_reports = {}
     bounded = []
     checker_cmds = []
+    thorough_extra = {}
     for unit in pcfg["units"]:
         ucfg = CONF["units"][unit]
         if ucfg["kind"] == "verus":
@@ -307,6 +309,19 @@ def check_property(prop, tier, seed):
                 undecided.append(f"vacuity: canaries verified in unit {unit}: {cr['verified_unexpectedly']}")
             if cr["canaries"] == 0:
                 undecided.append(f"vacuity: unit {unit} has no canaries")
+            if tier == "thorough" and not relevant_fail:
+                # (a) stability: other Z3 seeds and a halved resource limit (informational: a proof that flips is
+                #     reported as unstable in the evidence; it is neither a violation nor a pass/fail criterion)
+                stab = []
+                for k in range(1, 4):
+                    r2 = verus_run.run(ur["rs"], seed=seed * 7919 + k, rlimit=5)
+                    stab.append({"z3_seed": seed * 7919 + k, "rlimit": 5, "errors": r2["errors"], "verified": r2["verified"],
+                                 "messages": sorted({d["message"][:80] for d in r2["diagnostics"]})})
+                thorough_extra.setdefault("stability", {})[unit] = stab
+                # (b) teeth: mutants of the generated text must be rejected
+                tr = teeth.run(ur["rs"], ur["meta"], seed, int(os.environ.get("VERIF_MUTANTS", "48")), os.path.join(BUILD, prop, "mutants"))
+                thorough_extra.setdefault("teeth", {})[unit] = tr
+                log(f"teeth[{unit}]: {tr['rejected']}/{tr['mutants']} mutants rejected ({tr['rejected_by_obligation']} by a failed obligation); {len(tr['survivors'])} survivors")
             unit_results.append(ur)
         elif ucfg["kind"] == "kani":
             kr = kani_run.run_unit(HERE, REPO, unit, ucfg, tier, prop)
@@ -341,6 +356,7 @@ def check_property(prop, tier, seed):
         "extraction_rules_applied": rules,
         "canaries": canary_reports,
         "bounded": bounded,
+        "thorough": thorough_extra,
         "known_findings_reported": [{"obligation": f["obligation"], "what": kf["what"][:300]} for kf, f in known_hits],
         "unchecked_on_paper": pcfg.get("unchecked", []),
         "samples": samples,
@@ -349,6 +365,15 @@ def check_property(prop, tier, seed):
         "evaluations": obligations, "distinct_nontrivial": len({s["obligation"] for s in samples}),
         "rule": "one evaluation = one labelled AIR assert / CBMC check generated for a function tagged with the property; samples are contract clauses",
     }
+    if tier == "thorough" and pcfg.get("thorough_replay"):
+        reps = []
+        for cmd in pcfg["thorough_replay"]:
+            try:
+                p = subprocess.run(cmd, shell=True, cwd=HERE, capture_output=True, text=True, timeout=1800)
+                reps.append({"cmd": cmd, "rc": p.returncode, "tail": (p.stdout + p.stderr).strip().splitlines()[-3:]})
+            except Exception as e:
+                reps.append({"cmd": cmd, "rc": None, "tail": [str(e)]})
+        coverage["thorough"]["finding_replays"] = reps
     rc = 0
     for kf, f in known_hits:
         log(f"KNOWN-FINDING: property={prop} obligation={f['obligation']} {kf['what']}")
